@@ -12,6 +12,7 @@ C13.c every written pack is indexed: the pack writer pipeline has no filtering s
   (R-ORDER 16, shared with C03).
 C13.e / C13.f structural conditions against self-inflicted deadlock (see termination_rules): no rayon wait inside a loop that
   drains a rendezvous stream fed by rayon workers; the tree streamer's pending queue is unbounded.
+C13.g no process-wide once-cell (static OnceLock/OnceCell) is initialised from function arguments.
 C13.d blob ids do not depend on pack boundaries: ids are computed from plaintext before packing (C07.c), and the
   in-packer duplicate filters only skip blobs (never reorder tree serialisation).
 """
@@ -78,6 +79,7 @@ def run(ctx, rep):
                   what=f"all {len(adaptors)} adaptors between src.entries() and TreeArchiver::add preserve order: {adaptors}" if not bad else
                        f"the archive pipeline contains adaptors that do not preserve order (or are not on the allow-list): {bad}; tree entries would be added in scheduling order")
     termination_rules(ctx, rep)
+    global_state_rule(ctx, rep)
     from rules import C08
     C08.index_entry_rule(ctx, rep, "C13.c")
     # ---- C13.b -------------------------------------------------------------------------------------
@@ -115,6 +117,33 @@ def joined(ctx, rep, rule):
              [bb for bb, t in F.calls() if "callee" in t and callee(t).endswith("std::mem::drop") and "sender" in flow.backward_slice(F, op_place(t["args"][0]))["fields"]]
         okd = bool(dr) and bool(rc) and all(C.can_reach(F, d, rc[0][0]) or d == rc[0][0] for d in dr)
         rep.check(rule, f"channel-closed-first/{fn.split('::')[0]}", okd, where=F.loc(), what=f"{fn} closes the input channel before waiting (the worker can terminate)")
+
+
+def global_state_rule(ctx, rep):
+    """C13.g results are functions of their inputs: no process-wide once-cell is initialised with a value that depends on
+    the arguments of the function doing it (e.g. a per-repository parameter cached in a `static OnceLock`): the first
+    repository used in a process would leak into every later one."""
+    prog = ctx.prog
+    rep.rule("C13.g", "no process-wide once-cell is initialised from function arguments (repository-dependent data)")
+    n = 0
+    for b in prog.by_crate["rustic_core"] + prog.by_crate.get("rustic_backend", []):
+        for bb, t in b.calls():
+            if "callee" not in t or not re.search(r"(OnceLock|OnceCell)::<T>::(get_or_init|get_or_try_init|set|get_mut_or_init)$|once_cell::.*::(get_or_init|set)$", callee(t)):
+                continue
+            n += 1
+            dep = []
+            for a in t["args"][1:]:
+                e = flow.expr_of(b, a, bb)
+                if e[0] == "agg" and e[1][0] == "closure":
+                    caps = [x for x in e[2] if "('arg'," in repr(x)]
+                    if caps:
+                        dep.append("closure capturing " + ", ".join(sorted({m for m in re.findall(r"\('arg', (\d+)\)", repr(caps))})))
+                elif op_place(a) is not None and flow.backward_slice(b, op_place(a))["args"]:
+                    dep.append("value derived from arguments")
+            rep.check("C13.g", f"{fn_key(b)}/once-cell", not dep, where=where(b, bb),
+                      what=f"{fn_key(b)}: the process-wide cell is initialised independently of the function's arguments" if not dep else
+                           f"{fn_key(b)}: a process-wide once-cell is initialised from the function's arguments ({dep[0]}): later calls with other arguments (another repository) silently get the first value")
+    rep.count("C13.g: once-cell initialisation sites", n)
 
 
 def termination_rules(ctx, rep):
